@@ -5,7 +5,13 @@ pid, tag = sys.argv[1], (sys.argv[2] if len(sys.argv) > 2 else "a")
 p = next(json.loads(l) for l in open('/verif/properties.jsonl') if json.loads(l)['id'] == pid)
 wt = f"/tmp/wt-{pid}{tag}"
 out = f"/tmp/seed-out/{pid}{tag}"
-print(f"""You are helping to evaluate a test suite. Work ONLY inside the git worktree {wt} (a scratch checkout of a Rust project: a fork of `revm`, the Rust Ethereum Virtual Machine) and the output directory {out}. Do not read or write anything under /verif or /repo, and do not commit anything. There is no network: always pass --offline to cargo (e.g. `CARGO_BUILD_JOBS=4 cargo build --offline`).
+NOTES = {
+ "C33": " Build note: the Optimism code is only compiled with the cargo feature `optimism` of the crate `revm` (e.g. `cargo test -p revm --features optimism --offline --test seed_demo`); your demo.sh must pass that feature. The 130-test suite command below runs without it and must still pass.",
+ "C24": " Build note: the alternative backends are selected with cargo features of the crate `revm-precompile`: the default build uses the C `secp256k1` library and `c-kzg`; `--no-default-features --features std,kzg-rs` uses the pure-Rust `k256` and `kzg-rs` paths (e.g. `cargo test -p revm-precompile --no-default-features --features std,kzg-rs --offline --test seed_demo`). A demonstration may run the same inputs under both feature sets and compare printed results; demo.sh must do both builds itself.",
+ "C22": " Build note: `CfgEnv::disable_beneficiary_reward` only exists with the cargo feature `optional_beneficiary_reward` of the crate `revm` (e.g. `cargo test -p revm --features optional_beneficiary_reward --offline --test seed_demo`); the handler constructor flag `Handler::mainnet_with_spec(spec, false)` needs no feature.",
+}
+NOTE = NOTES.get(pid, "")
+print(f"""You are helping to evaluate a test suite. Work ONLY inside the git worktree {wt} (a scratch checkout of a Rust project: a fork of `revm`, the Rust Ethereum Virtual Machine) and the output directory {out}. Do not read or write anything under /verif or /repo, and do not commit anything. There is no network: always pass --offline to cargo (e.g. `CARGO_BUILD_JOBS=4 cargo build --offline`). Never use `git stash` (the stash is shared by all worktrees of the repository and other agents work in sibling worktrees): to test on a clean tree, save your change with `git diff > /tmp/<yourname>.diff`, `git checkout -- <files>`, and re-apply it with `git apply` afterwards.{NOTE}
 
 Here is a semantic property that this code base is supposed to satisfy:
 
